@@ -44,5 +44,5 @@ def run(c):
     c01.net_runs(c, ["4eq-restart", "4w-restart"] + (["5w-restart"] if th else []), 40 if th else 4, ("net:liveness", "net:panic"))
     # validator-set changes over 7 heights (+ restarts), and the default configuration in which round 1 of a height is
     # proposed when the NewRound timeout (CreateEmptyBlocksInterval) fires
-    c01.net_runs(c, ["5w-change-restart", "4eq-wait"] + (["4eq-change", "4w-wait-restart"] if th else []), 40 if th else 3,
+    c01.net_runs(c, ["5w-change-restart", "4eq-wait", "4eq-byz-leaves"] + (["4eq-change", "4w-wait-restart"] if th else []), 40 if th else 3,
                  ("net:liveness", "net:panic"))
